@@ -3,7 +3,10 @@
 // nothing quoted are dropped).
 package refsplit
 
-import "strings"
+import (
+	"strings"
+	"unicode/utf8"
+)
 
 // Seg is a piece of a word after all other expansions: text that is either
 // quoted (never cut, always makes a field exist) or unquoted (cut at IFS).
@@ -35,8 +38,14 @@ func Split(segs []Seg, ifs string, ifsSet bool) []string {
 			cur.b.WriteString(s.Text)
 			continue
 		}
-		for _, r := range s.Text {
-			if ifs != "" && strings.ContainsRune(ifs, r) {
+		// a character is one decoded unit of text: a valid UTF-8 sequence or a single
+		// invalid byte (which is a different character from U+FFFD and from every
+		// other invalid byte)
+		for t := s.Text; t != ""; {
+			_, w := utf8.DecodeRuneInString(t)
+			ch := t[:w]
+			t = t[w:]
+			if IsIFS(ifs, ch) {
 				// an unquoted IFS character ends the field; runs of IFS white
 				// space collapse, a non-white-space one delimits on its own, and
 				// the empty fields this produces hold nothing quoted, so they are
@@ -44,9 +53,20 @@ func Split(segs []Seg, ifs string, ifsSet bool) []string {
 				flush()
 				continue
 			}
-			cur.b.WriteRune(r)
+			cur.b.WriteString(ch)
 		}
 	}
 	flush()
 	return out
+}
+
+func IsIFS(ifs, ch string) bool {
+	for ifs != "" {
+		_, w := utf8.DecodeRuneInString(ifs)
+		if ifs[:w] == ch {
+			return true
+		}
+		ifs = ifs[w:]
+	}
+	return false
 }
